@@ -125,7 +125,7 @@ def seq_workloads():
 def lib_check(obj, fix=False):
     import diskcache
     with warnings.catch_warnings():
-        warnings.simplefilter('ignore')
+        warnings.simplefilter('always')
         try:
             warns = obj.check(fix=fix)
         except Exception as exc:
